@@ -122,6 +122,10 @@ def explore(run, tier):
         for fill in (0x40, 0x00):
             cases.append({'b': 1, 'lens': lens, 'fill': fill})
         cases.append({'b': 0, 'lens': lens, 'fill': 0x40})
+    # MANY records (more than a thousand small ones) in memory streams, cut at sampled offsets
+    for b in (0, 1):
+        cases.append({'b': b, 'lens': [1 + i % 3 for i in range(1100)], 'step': 211})
+        cases.append({'b': b, 'lens': [2] * 2300, 'step': 977})
     if tier == 'thorough':
         for lens in ([6000, 6000], [3000, 17, 4000, 1]):
             for b in (0, 1):
